@@ -147,6 +147,45 @@ theorem multisigLoop_eq_walk (env : Env) (c : Ctx) (sc : Bytes) (sigs keys : Lis
               exact ⟨a1, h', a2, fun k hk' => a3 k (by simp [hk'])⟩
             · simp at hfuel; omega
 
+/-! ### OP_CHECKSIG, stated outright -/
+
+/-- the script code OP_CHECKSIG signs: the sub-script (from after the last executed OP_CODESEPARATOR, `subScript`),
+    with — for legacy signatures only — the signature pushes and remaining separators removed -/
+def scriptCode (env : Env) (sub : List POp) (fullSig : Bytes) : List POp :=
+  if !hasFlag env.flags fForkID || ((fullSig.getLast?.getD 0).toNat &&& 0x40 != 0x40)
+  then removeOpcode (removeOpcodeByData sub fullSig) 0xab else sub
+
+/-- **OP_CHECKSIG reports success exactly when the signature verifies** under the supplied key over the signature
+    hash of the script code.  With a transaction context, a non-empty signature whose hash type / DER / key encodings
+    pass the active flags, and a computable digest `h`: the opcode pops key and signature and
+    * pushes true iff the key parses and `verify sig h key` says true;
+    * otherwise pushes false — unless NULLFAIL is set, which turns it into the error ErrNullFail. -/
+theorem checksig_iff_verifies (env : Env) (c : Ctx) (sub : List POp) (s : St) (pk fullSig : Bytes) (r : List Bytes)
+    (code h : Bytes)
+    (hctx : env.ctx = some c) (hs : s.ds = pk :: fullSig :: r) (hne : fullSig ≠ [])
+    (h1 : checkHashTypeEncoding env (fullSig.getLast?.getD 0).toNat = none)
+    (h2 : checkSignatureEncoding env fullSig.dropLast = none) (h3 : checkPubKeyEncoding env pk = none)
+    (hcode : unparse (scriptCode env sub fullSig) = .ok code)
+    (hdig : sigDigest env c code (fullSig.getLast?.getD 0).toNat = some h) :
+    let ok := env.H.pubKeyOk pk &&
+      (env.H.verify (hasFlag env.flags fStrictEnc || hasFlag env.flags fDERSig) fullSig.dropLast h pk == some true)
+    opCheckSig env sub s =
+      if !ok && hasFlag env.flags fNullFail && fullSig.dropLast.length > 0 then .err "ErrNullFail"
+      else .ok (pushBool ok { s with ds := r }) := by
+  have hlen : ¬ fullSig.length < 1 := by
+    cases fullSig with
+    | nil => exact absurd rfl hne
+    | cons _ _ => simp
+  unfold scriptCode at hcode
+  simp only [opCheckSig, hs, hlen, ↓reduceIte, h1, h2, h3, hcode, hctx, hdig]
+  cases hk : env.H.pubKeyOk pk with
+  | false => simp
+  | true =>
+    simp only [Bool.not_true, Bool.false_eq_true, ↓reduceIte, Bool.true_and]
+    cases hv : env.H.verify (hasFlag env.flags fStrictEnc || hasFlag env.flags fDERSig) fullSig.dropLast h pk with
+    | none => simp
+    | some b => cases b <;> simp
+
 /-! ### flag decision logic, stated outright -/
 
 /-- NULLDUMMY: with the flag, a non-empty dummy element is a hard failure … -/
